@@ -3,6 +3,61 @@
 import json
 ALL = ["C%02d" % i for i in range(1, 21)]
 CHECKS = {
+ "C04": dict(
+   technique="explicit-state BFS (stateright) to fixpoint over cedar_policy::Entities histories (add/upsert/remove with all batches of size 1 and ordered size 2 over 3-4 uids incl. self and dangling parents), every transition executed on the real store in lock-step with a parent-graph reference model; plus exhaustive from_entities over all parent graphs x insertion orders and all 2^9 x 2^9 hand-built stores for EnforceAlreadyComputed",
+   text="Explicit-state model checking of the real implementation: the reachable state space of the entity store over a 3-4 uid universe is finite and is explored completely; each transition calls the real API once and the canonical state read back from the implementation is compared with the reference model (direct parents, indirect ancestors = strict reachability, disjointness), Err iff the resulting graph is cyclic, failed ops change nothing, and for all ordered pairs ancestors()/is_ancestor_of/`in` through the Authorizer equal reachability. History-quantified claims about incrementally maintained closures are exactly what exhaustive state exploration decides.",
+   note="Trusted base: refsem::Store reachability, read-back through AsRef<ast::Entity>. Re-adding a present uid is not predicted (documented quirk), only the invariants on Ok. Bounds: 3 uids + a dangling-only parent (quick), 4 uids (thorough), batches <= 2.",
+   design="§3 C04, §8"),
+ "C07": dict(
+   technique="bounded-exhaustive enumeration of constructor strings (all strings <=6/7 over per-type alphabets, boundary templates, datetime product grid, ip octet/prefix grids, IPv6 templates, 1-char mutations) and of all pairs/triples of boundary values for every operation, run on the real extension code through 3 paths and compared with reference parsers/arithmetic (i128, own calendar and CIDR math)",
+   text="Model checking in the small-scope sense: the complete space of short constructor strings plus structured boundary grids is enumerated; accept <=> accept, accepted values are compared through their internal representation and through observer functions, rejections must be extension errors, and every operation on every pair/triple of boundary values must give the exact result or an extension (overflow) error. Off-by-one and sign errors at boundaries are exactly what exhaustive boundary grids expose.",
+   note="Trusted base: refsem::ext reference implementation (self-checked against ~140 hand-derived expectations and a closed-form calendar at start), std IpAddr Debug output. Inputs longer than the bounds only as templates/mutations.",
+   design="§3 C07, §8"),
+ "C08": dict(
+   technique="explicit-state BFS (stateright) over cedar_policy::PolicySet histories (add, add_template, link with 6 bindings, unlink, remove_static, remove_template, merge with/without renaming; colliding ids; depth 3/5 from 3 initial sets), lock-step with a three-map reference model; authorization on every new state compared with textual substitution of links and with the reference authorizer",
+   text="Explicit-state model checking of the real implementation: every operation history up to the depth bound over a colliding id pool is executed on the real PolicySet; after every transition the full read-back (policies, templates, links with template ids and bindings, effects, annotations, counts, API mirror maps vs core maps) must equal the model, Ok/Err must follow the documented preconditions, a failed op must change nothing, merge renamings must be injective/fresh/covering, and authorization must equal that of the set with each link replaced by the textually substituted static policy.",
+   note="Trusted base: three-map reference model, refsem::Pol::substitute + reference authorizer. get_linked_policies on a static id and renaming of identical-content overlaps in merge are not predicted.",
+   design="§3 C08, §8"),
+ "C09": dict(
+   technique="deviation-bounded exhaustive enumeration of schemas: every subset of <=2/3 of 18 schema features over a minimal schema, written in both syntaxes, translated both ways by the real code, reloaded and compared for equality and for identical validation verdicts",
+   text="Model checking in the small-scope sense with deviation bounding: the space of all schemas with at most 2 (quick) / 3 (thorough) features switched on is enumerated completely; each is loaded from both syntaxes, translated JSON->Cedar and Cedar->JSON(->Cedar) by the real code and reloaded; ValidatorSchema equality, a 25-policy validation battery and 17 request/entity validations must agree across all variants. Name-resolution and quoting errors show only for particular feature combinations, which pairwise/triple-wise enumeration covers.",
+   note="Trusted base: the feature renderers (a combination rejected in either syntax is counted, not judged), ValidatorSchema PartialEq. Translation returning Err is skipped and counted.",
+   design="§3 C09, §8"),
+ "C10": dict(
+   technique="bounded-exhaustive enumeration of values to depth 2 (16 atoms, sets, records with escape-like keys) placed in entity attributes, tags and contexts; JSON round trip, schema-derived parsing, and every implicit/explicit choice vector per entity-reference / extension-value occurrence compared with the explicit form parsed without schema",
+   text="Model checking in the small-scope sense: all values up to depth 2 over the atom alphabet are serialised and parsed back by the real code (deep_eq), reserved keys must be refused or round-trip exactly, and for the schema derived for each datum every vector of implicit|explicit|bare-constructor-argument spellings (<= 4 occurrences) must parse to the same data as the explicit form without schema. The JSON layer dispatches on expected type x escape spelling x value shape, a product this enumerates.",
+   note="Trusted base: refsem val_json renderer, the library's deep_eq (checked against reachability in C04), bind::abs_value for contexts.",
+   design="§3 C10, §8"),
+ "C12": dict(
+   technique="deviation-bounded exhaustive enumeration: programs (operator shapes depth <=2, scopes, annotations, condition lists, policy sets, hand-written lexical corner texts) x 0/1/2 comments inserted at every token boundary (7 comment kinds) x whitespace layouts x (line_width, indent_width) grid; formatter output re-parsed and compared by a loc-free abstraction, comment sequences compared by an independent scanner",
+   text="Model checking in the small-scope sense with deviation bounding (0, 1, 2 inserted comments): for every program of the bounded space, every token boundary and every configuration the real formatter is run; it must succeed, the output must parse to structurally identical policies (ids, effect, annotations, scope, conditions) in the same order, keep the exact sequence of comments, be idempotent without comments, and re-formatting (same and different config) must preserve all of it. The formatter's own soundness check is never consulted.",
+   note="Trusted base: the harness tokenizer/comment scanner (self-checked: must find exactly the inserted comments), bind::abs_expr. Strings inside expressions use a small alphabet (the large content alphabet is C05's).",
+   design="§3 C12, §8"),
+ "C13": dict(
+   technique="bounded-exhaustive enumeration of (unknown kind x policy set x substitution): 9 kinds of unknown input, policy bodies placing an unknown-touching operand against constant/erroring operands in 16 shapes, all substitutions from small typed domains; partial authorization by the real code compared with authorizing the substituted concrete inputs (real and reference authorizer)",
+   text="Model checking in the small-scope sense: soundness of partial evaluation relates a residual to every completion of the unknowns; the check enumerates every substitution from finite domains for every policy set of the bounded space and compares definite decisions, must/may-be-determining sets, definitely satisfied/errored/trivially false policies and reauthorize results with the concrete response computed from scratch.",
+   note="Trusted base: reference authorizer (cross-checks the concrete side). Substitution domains have 3-5 values per unknown; wrong-type values only for untyped unknowns.",
+   design="§3 C13, §8"),
+ "C15": dict(
+   technique="bounded-exhaustive enumeration of (valid policy set x conformant environment x loader answer policy x iteration budget 0..n+1) with the loader call log checked as the trace; batched authorization by the real code compared with ordinary authorization",
+   text="Model checking of the loader/budget state machine: for every policy set and environment of the bounded space, every budget from 0 up to the first decision, the next one and n+1 is run against an exact and a generous loader; any decision must equal ordinary authorization, errors must be insufficient-iterations only, decisions must be monotone in the budget, budget n+1 must decide, and the loader must never be asked for the same uid twice or more often than the budget.",
+   note="Trusted base: ordinary Authorizer (itself checked in C01/C02). The generous loader never repeats an entity (see DESIGN §8.2). Budgets between first+1 and n+1 are skipped.",
+   design="§3 C15, §8"),
+ "C16": dict(
+   technique="bounded-exhaustive enumeration of dereference-chain policies (all entity-valued access paths <=2/3 steps x terminal observation x wrappers) validated at levels 0..5 by the real validator; for each level the accepted set is authorized on every conformant (store, request) over the full store vs the level-n slice built from the definition",
+   text="Model checking in the small-scope sense: sufficiency of the level-n slice is checked by actually building the slice from its definition and re-authorizing, for every policy accepted at level n and every store/request of the bounded universe (entities present/absent along the chains); monotonicity in n is checked on every policy. An under-count in the level checker (record literal, if-branch, `in`, tags) shows up as a different response on the slice.",
+   note="Trusted base: lvl.rs::level_slice (RFC-76 reading: level 0 loads nothing). Evidence reports how many policies have a tight minimal level (oracle has teeth).",
+   design="§3 C16, §8"),
+ "C17": dict(
+   technique="bounded-exhaustive enumeration of the C16 policy family (singles and pairs): compute_entity_manifest, then slice_entities on every conformant (store, request) and authorization on slice vs full store",
+   text="Model checking in the small-scope sense: for every strictly valid policy set of the bounded family for which a manifest is computed, and every store/request of the bounded universe, the store is sliced by the real slicing code and authorization on the slice must equal authorization on the full store (decision, determining and erroring policies).",
+   note="Trusted base: the real authorizer as comparison partner. A refusal of compute_entity_manifest (e.g. tags) is not a violation. The entity-manifest feature is compiled in by the harness (the baseline suite does not).",
+   design="§3 C17, §8"),
+ "C18": dict(
+   technique="bounded-exhaustive enumeration of (strictly valid policy / policy pair / policy set / set pair x conformant concrete environment): SymEnv::from_concrete_env + compile_with_custom_symenv by the real code, asserts must be literals and all-true must coincide with the concrete evaluator/authorizer verdict",
+   text="Model checking in the small-scope sense: for every policy of the bounded family and every concrete environment the symbolic compiler is run on the literal environment; every verification condition (never_errors, always/never_matches, matches_equivalent/implies/disjoint, always_allows/denies, implies, equivalent, disjoint) must fold to constants and agree with concrete evaluation. One genuine disagreement class (environments with missing entities) is listed as known finding F4.",
+   note="Trusted base: real evaluator/authorizer for the concrete side (checked in C01/C02). Says nothing about non-literal terms or the SMT encoding.",
+   design="§3 C18, §8"),
  "C03": dict(
    technique="bounded-exhaustive enumeration of policies over a schema vocabulary (type-directed must-accept set, guard x access x shape grid, all depth-1/2 operator applications over 41 typed atoms, several action scopes); each is validated by the real validator and every accepted one is evaluated by the real evaluator on every conformant (request, store) of a small universe, with a typed-AST walk checking value-in-static-type at every reached sub-expression",
    text="Model checking in the small-scope sense over three nested finite spaces (programs x request environments x conformant stores): soundness is checked by actually evaluating every strictly accepted policy on every environment the library's own validation accepts (error classes, impossible-policy warnings, value inhabits static type at each reached node, strict=>permissive), and non-vacuity by requiring acceptance of a type-directed set of documented guard patterns. This is the level that can see an unsound acceptance (capability leak, optional treated as required, wrong singleton bool type), which per-expression typing tests cannot.",
